@@ -76,6 +76,28 @@ PROPS = {
         "target": has(("many ", "bulk ")),
         "design_ref": "5/C07",
     },
+    "C08": {
+        "title": "Concurrent calls are linearizable and free of data races",
+        "modules": ["Props.C08"],
+        "quick": {"special": ["conc_races", "conc_linearizable"]},
+        "thorough": {"special": ["conc_races", "conc_linearizable"]},
+        "rule": "lock/access facts regenerated from the source and re-proved; race detector on first-access and mixed-load scenarios; "
+                "concurrent histories (2-3 goroutines x 2-3 calls) with every real-time-respecting order replayed on the model; distinct by call lines",
+        "level_note": "proof of the lock protocol (every schedule) + regenerated facts; Go's memory model and scheduler are not modelled: "
+                      "the race detector and the linearizability search are supporting evidence on sampled schedules",
+        "design_ref": "5/C08",
+    },
+    "C09": {
+        "title": "No API call can block forever",
+        "modules": ["Props.C09"],
+        "quick": {"special": ["conc_progress"]},
+        "thorough": {"special": ["conc_progress"]},
+        "rule": "lock discipline facts regenerated from the source and re-proved (every entry point and goroutine); watchdog run of enumerating readers, "
+                "chained refinements, writers and the flusher in sync and async variants",
+        "level_note": "proof for every schedule and any number of threads of the modelled RW-lock machine; assumes sync.RWMutex behaves as modelled "
+                      "(writer-preferring or fairer) and that user hooks return and do not re-enter the handle",
+        "design_ref": "5/C09",
+    },
     "C11": {
         "title": "Control detects every divergence, Repair restores agreement",
         "modules": ["Props.C11"],
